@@ -181,3 +181,44 @@ benign(
     ["C16", "C11"],
     (OPS, "    out = _store_array(x, store, path=path, region=region)\n    if compute:\n        out.compute(executor=executor, _return_in_memory_array=False, **kwargs)\n    else:\n        return out", "    out = _store_array(x, store, path=path, region=region)\n    if not compute:\n        return out\n    out.compute(executor=executor, _return_in_memory_array=False, **kwargs)"),
 )
+
+# ---------------------------------------------------------------- C08
+mutant("M-F3-rebind-start-times", ["C08"], "MAP-MONO-1", (ASYNC, "                start_times.update({f: t for f in new_tasks.keys()})", "                start_times = {f: t for f in new_tasks.keys()}"))
+mutant("M-F4-no-superseded-check", ["C08", "C13"], "MAP-ONCE-1", (ASYNC, "            if task in superseded:\n                # the twin finished in the same round and was handled first\n                continue\n", ""))
+mutant("M-F4b-superseded-never-filled", ["C08", "C13"], "MAP-ONCE-1", (ASYNC, "                    superseded.add(backup)\n", ""))
+mutant("M52-refill-without-tasks", ["C08"], "MAP-PAIR-1", (ASYNC, "                tasks.update(new_tasks)\n", ""))
+mutant("M52b-backup-without-start-time", ["C08"], "MAP-PAIR-1", (ASYNC, "                    start_times[new_task] = time.monotonic()\n", ""))
+mutant(
+    "M53-swallow-exception",
+    ["C08"],
+    "MAP-RAISE-1",
+    (ASYNC, "                if backup:\n                    if not backup.done() or not backup.exception():\n                        continue\n                raise task.exception()  # type: ignore", "                continue"),
+)
+mutant(
+    "M53b-suppress-without-twin-state",
+    ["C08"],
+    "MAP-RAISE-1",
+    (ASYNC, "                if backup:\n                    if not backup.done() or not backup.exception():\n                        continue\n", "                if use_backups:\n                    continue\n"),
+)
+mutant(
+    "M53c-raise-swallowed-by-try",
+    ["C08"],
+    "MAP-RAISE-1",
+    (ASYNC, "                raise task.exception()  # type: ignore\n", "                try:\n                    raise task.exception()  # type: ignore\n                except Exception:\n                    pass\n"),
+)
+mutant("M54-no-twin-test", ["C08"], "MAP-BACKUP-1", (ASYNC, "                if task not in backups and should_launch_backup(", "                if should_launch_backup("))
+mutant("M54b-one-direction", ["C08"], "MAP-BACKUP-1", (ASYNC, "                    backups[new_task] = task\n", ""))
+mutant("M55a-attempts-off-by-one", ["C08"], "RETRY-1", (LOCAL, "stop=stop_after_attempt(retries + 1)", "stop=stop_after_attempt(retries)"))
+mutant("M55b-no-reraise", ["C08"], "RETRY-1", (LOCAL, "Retrying(reraise=True,", "Retrying(reraise=False,"))
+mutant("M55c-wrapper-not-submitted", ["C08"], "RETRY-1", (LOCAL, "        function = partial(retryer, function)\n", "        wrapped = partial(retryer, function)\n"))
+mutant("M56-break-main-loop", ["C08", "C07"], "MAP-DRAIN-1", (ASYNC, "        if use_backups:\n            now = time.monotonic()", "        if not finished:\n            break\n        if use_backups:\n            now = time.monotonic()"))
+mutant("M56b-yield-for-exception", ["C08"], "MAP-RAISE-1", (ASYNC, "            if task.exception():\n", "            if task.exception() and not return_stats:\n"))
+benign("B-start-times-ior", ["C08"], (ASYNC, "                start_times.update({f: t for f in new_tasks.keys()})", "                start_times |= {f: t for f in new_tasks.keys()}"))
+benign("B-start-times-merge-rebind", ["C08"], (ASYNC, "                start_times.update({f: t for f in new_tasks.keys()})", "                start_times = {**start_times, **{f: t for f in new_tasks.keys()}}"))
+benign(
+    "B-rename-locals-map",
+    ["C08", "C07", "C13"],
+    (ASYNC, "    backups: dict[asyncio.Future, asyncio.Future] = {}\n", "    backups: dict[asyncio.Future, asyncio.Future] = {}\n    logger_note = None\n"),
+    (ASYNC, "        for task in finished:\n            if task in superseded:", "        for fut in finished:\n            task = fut\n            if task in superseded:"),
+)
+benign("B-retry-bound-commuted", ["C08"], (LOCAL, "stop=stop_after_attempt(retries + 1)", "stop=stop_after_attempt(1 + retries)"))
